@@ -162,7 +162,9 @@ def gen_sheet(rng):
         rcols[-1] = rcols[0]
     numeric_titles = rng.random() < 0.3 and "*" not in rcols
     if numeric_titles:
-        rcols = [str(2020 + i) for i in range(len(rcols))]   # title cells hold numbers (per-year columns)
+        # title cells hold numbers (per-year columns, or hours counted from 0)
+        year0 = rng.choice([2020, 2020, 0])
+        rcols = [str(year0 + i) for i in range(len(rcols))]
     spec['repeated_group_title'] = len(set(rcols)) < len(rcols)
     kn = [k[1] for k in KNOWN] + (['Opt'] if spec['have_opt'] else [])
     rng.shuffle(kn)
@@ -740,6 +742,13 @@ def blank_sheet_case(ctx, rng):
             return
 
 
+class TupleOfWords(X.CellList):
+    """a converter of the application: the words of the cell as a tuple"""
+
+    def _make_value(self, cell):
+        return tuple(super()._make_value(cell))
+
+
 class Term(X.XlsObject):
     _ATTRS = ['word', 'meaning', 'kind', 'extra', 'note']
     _NUM_ID_ATTRS = 1
@@ -769,9 +778,17 @@ def glossary_case(ctx, rng):
             row = [rng.choice(GLOSSARY_WORDS) for _ in titles]
         rows.append([None] * lead + row + [rng.choice([None, "x"])] * trail)
     width = lead + 3 + trail
+    tuple_key = rng.random() < 0.3
+    if tuple_key:
+        # the key of the entries is a tuple of words (a converter of the application: the list converter's value as a
+        # tuple); a cell that holds only separators gives the empty tuple - a key like any other
+        rows = [[(rng.choice([" , ", "a, b", "table", ",", "x,y"]) if c == lead + titles.index("word") and rng.random() < 0.5
+                  else v) for c, v in enumerate(row)] for row in rows]
+        ctx.count("glossaries_whose_key_is_a_tuple_of_words")
     grid = [[None] * width] * rng.randint(0, 1) + [[None] * lead + titles + [None] * trail] + rows + \
         [[None] * width, ["after"] * width]
-    rules = {'word': ('word', X.cell_str), 'meaning': ('meaning', X.cell_str), 'kind': ('kind', X.cell_str),
+    rules = {'word': ('word', TupleOfWords() if tuple_key else X.cell_str), 'meaning': ('meaning', X.cell_str),
+             'kind': ('kind', X.cell_str),
              'extra': ('extra', X.cell_str, {'default_val': NOT_SET}),
              'note': ('note', X.cell_str, {'default_val': (lambda: "made")})}
     if n % 2:
@@ -793,6 +810,8 @@ def glossary_case(ctx, rng):
             ctx.count("rows_that_read_like_the_title_row")
         for c, t in enumerate(titles):
             want = row[lead + c].strip()
+            if tuple_key and t == "word":
+                want = tuple(conv('list', row[lead + c]))
             if getattr(o, t) != want or coord(o.get_attr_origin(t)) != (t0 + k, lead + c):
                 ctx.violation("attribute-differs-from-cell-at-reported-origin",
                               {"object": k, "attr": t, "value": repr(getattr(o, t)), "origin": o.get_attr_origin(t),
